@@ -27,7 +27,13 @@ TARGETS = {
     "src/xml/encode.rs": (["C09"], 0, 494),
     "src/rrdp.rs": (["C09"], 0, 1636),
     "src/util/base64.rs": (["C09"], 0, 236),
+    # second campaign: files the claimed properties reach through the anchored ones;
+    # the pinned suite has unit tests for these, so mutants are first run against it
+    "src/resources/addr.rs": (["C07", "C06"], 0, 906),
+    "src/resources/asn.rs": (["C07", "C06"], 0, 539),
+    "src/uri.rs": (["C09"], 0, 1046),
 }
+SUITE_FILES = {"src/resources/addr.rs", "src/resources/asn.rs", "src/uri.rs"}
 RUNS = {"C06": "150000", "C07": "500", "C08": "300000", "C09": "6000"}
 
 OPS = [
@@ -80,6 +86,12 @@ def build():
     r = sh("cargo build --release --offline 2>&1 | tail -30", cwd=SIM)
     ok = "Finished" in r.stdout and "error" not in r.stdout.split("Finished")[0][-2000:]
     return ok, r.stdout[-1500:]
+
+
+def suite_passes():
+    r = sh("cargo test --workspace --no-fail-fast --offline 2>&1 | grep -E '^test result' | head -1", cwd=REPO,
+           env=dict(os.environ, CARGO_TARGET_DIR=REPO + "/target"))
+    return " 0 failed" in r.stdout and "35 passed" in r.stdout
 
 
 def check(ids):
@@ -181,6 +193,8 @@ def main():
             rec = {"file": path, "line": ln, "op": op, "col_src": old.strip()[:60], "mutated": new.strip()[:120]}
             if not ok:
                 rec["status"] = "does-not-compile"
+            elif path in SUITE_FILES and not suite_passes():
+                rec["status"] = "killed-by-existing-tests"
             else:
                 kb, det = check(ids)
                 rec["status"] = "killed" if kb else "SURVIVED"
